@@ -288,6 +288,7 @@ def root(draw, family):
 def build_root(program):
     p = dict(program)
     p["sources"] = dict(gen.SOURCES, **{"N:n1": ["tbl", "n1", None, None], "N:n2": ["tbl", "n2", None, None]})
+    p["sources"].update(program.get("sources") or {})
     if p.get("root", "query") == "query":
         # steps that raise are no-ops for the chain
         obj = prog.query_cls(p.get("cls", "generic"))
